@@ -7,7 +7,10 @@
    evidence): (R1) CPython deallocates only sets of objects that no variable and no object outside
    the set refers to, each object once ([garbage] guard of OCollect); (R2) an allocation never
    returns the address of a live object ([addr_free] guard); (R3) a destructor does not resurrect
-   or touch the objects being freed (OCollect is atomic). *)
+   or touch the objects being freed (OCollect is atomic).
+   Operations whose guard fails (operand not held by a variable, address in use) leave the state
+   unchanged; [get s i] for an index never created is a default dead object with no destructor,
+   for which the statements below hold trivially. *)
 From Coq Require Import Arith List Bool.
 Import ListNotations.
 From Cffi Require Import C21.Model C21.Proofs.
@@ -105,11 +108,28 @@ Theorem C21_from_handle_correct : forall ops h x,
 Proof. exact from_handle_correct. Qed.
 Print Assumptions C21_from_handle_correct.
 
-Theorem C21_live_objects_distinct_addresses : forall ops i j,
+(* "live handles have pairwise distinct addresses".  What cffi contributes is proved from the
+   model's own bookkeeping: every new_handle call creates a new handle object (never a shared or
+   recycled one), and a handle's address is the address of that object.  That two objects that
+   are alive at the same time have different addresses is NOT a fact about cffi but runtime
+   hypothesis R2 (the allocator never returns memory in use; the [addr_free] guard); the second
+   theorem only carries R2 along the history and is named accordingly. *)
+Theorem C21_new_handle_fresh : forall ops x a,
   let s := run ops in
-  alive (get s i) = true -> alive (get s j) = true -> i <> j -> addr (get s i) <> addr (get s j).
-Proof. exact live_objects_distinct_addresses. Qed.
-Print Assumptions C21_live_objects_distinct_addresses.
+  usable s x = true -> addr_free s a = true ->
+  let s' := step s (ONewHandle x a) in
+  next s' = S (next s) /\ k (get s' (next s)) = KHandle x /\ alive (get s' (next s)) = true /\
+  addr (get s' (next s)) = a /\ (forall j, j < next s -> get s' j = get s j).
+Proof. exact new_handle_fresh. Qed.
+Print Assumptions C21_new_handle_fresh.
+
+Theorem C21_live_handles_distinct_addresses_under_R2 : forall ops h1 h2 x1 x2,
+  let s := run ops in
+  alive (get s h1) = true -> alive (get s h2) = true ->
+  k (get s h1) = KHandle x1 -> k (get s h2) = KHandle x2 -> h1 <> h2 ->
+  addr (get s h1) <> addr (get s h2).
+Proof. exact live_handles_distinct_addresses_under_R2. Qed.
+Print Assumptions C21_live_handles_distinct_addresses_under_R2.
 
 Theorem C21_references_alive : forall ops i r,
   In r (refs_of (get (run ops) i)) -> alive (get (run ops) r) = true.
